@@ -12,6 +12,9 @@ pub mod transpose;
 pub mod transpose_crafted;
 pub mod validation_crafted;
 pub mod related_crafted;
+pub mod rel_crafted;
+pub mod data_crafted;
+pub mod textops_crafted;
 pub mod stamql;
 pub mod webanno;
 pub mod concurrent;
